@@ -3,7 +3,7 @@
    hypotheses hold and the conclusions can be read off. *)
 From Sessions Require Import Model.Base Model.Sess Model.Hist Proofs.SessDefs
   Proofs.RotateLaws Proofs.RotateLaws2 Proofs.RotateLaws3 Proofs.RotateLaws4 Proofs.RotateLaws5
-  Proofs.RotateLaws6.
+  Proofs.RotateLaws6 Proofs.RotateLaws7.
 From Coq Require Import Lia.
 
 (* ------------------------------------------------------------- checkers *)
@@ -63,9 +63,10 @@ Qed.
 Definition ref_wfb (s : st) : bool :=
   forallb (fun k => match L s k with
                     | Some r => match r_ref r with
-                                | Some t => match k, t with
-                                            | KGen n, KGen m => (n <? m)%N && (m <? supply s)%N
-                                            | _, _ => false
+                                | Some t => match t with
+                                            | KGen m => (m <? supply s)%N &&
+                                                        match k with KGen n => (n <? m)%N | KJunk _ => true end
+                                            | KJunk _ => false
                                             end
                                 | None => true
                                 end
@@ -79,9 +80,9 @@ Proof.
   { apply in_or_app. unfold L in Hl. destruct (lookup (cache s) k) as [o|] eqn:E.
     - left. apply lookup_In in E. apply (in_map fst) in E. exact E.
     - right. apply lookup_In in Hl. apply (in_map fst) in Hl. exact Hl. }
-  specialize (H k Hin). rewrite Hl, Hr in H. destruct k as [n|n], t as [m|m]; try discriminate.
-  apply andb_true_iff in H as [A B]. apply N.ltb_lt in A. apply N.ltb_lt in B.
-  exists n, m. auto.
+  specialize (H k Hin). rewrite Hl, Hr in H. destruct t as [m|m]; [|discriminate].
+  apply andb_true_iff in H as [A B]. apply N.ltb_lt in A.
+  exists m. split; [reflexivity|]. split; [exact A|]. intros n ->. apply N.ltb_lt. exact B.
 Qed.
 
 Definition okb (s : st) : bool :=
@@ -123,7 +124,7 @@ Example start_rotate_ex :
   snd (start s q) = [CkLive (KGen 1)] /\
   L (st_of (start s q)) (KGen 1) = Some (recE 20000000000) /\
   option_map r_ref (L (st_of (start s q)) (KGen 0)) = Some (Some (KGen 1)).
-Proof. split; [apply ok_b; reflexivity|]. by_compute. Qed.
+Proof. split; [apply ok_b; vm_compute; reflexivity|]. by_compute. Qed.
 
 (* the same with a cache of size 1 behind JSON: the session leaves the cache *)
 Example start_rotate_ex_size1 :
@@ -134,7 +135,7 @@ Example start_rotate_ex_size1 :
   cached (st_of (start s q)) (KGen 1) = false /\ cached (st_of (start s q)) (KGen 0) = true /\
   option_map r_created (L (st_of (start s q)) (KGen 1)) = Some 20000000000%Z /\
   draws (evs (st_of (start s q))) = [1; 0]%N.
-Proof. split; [apply ok_b; reflexivity|]. by_compute. Qed.
+Proof. split; [apply ok_b; vm_compute; reflexivity|]. by_compute. Qed.
 
 (* C04, no rotation due: SessionIDExpiry 30 s *)
 Example start_keep_ex :
@@ -145,7 +146,7 @@ Example start_keep_ex :
   (since (r_created (recE 0)) (now s) < c_idexpiry (conf s))%Z /\
   snd (start s q) = [] /\ draws (evs (st_of (start s q))) = [0%N] /\
   option_map r_access (L (st_of (start s q)) (KGen 0)) = Some 20000000000%Z.
-Proof. split; [apply ok_b; reflexivity|]. by_compute. Qed.
+Proof. split; [apply ok_b; vm_compute; reflexivity|]. by_compute. Qed.
 
 (* SessionIDExpiry = 0 rotates at once, = max64 never *)
 Example rotate_always_never_ex :
@@ -160,7 +161,7 @@ Example regenerate_ex :
   hget s 0 = Some (mkObj (KGen 0) (recE 0)) /\
   snd (regenerate s 0) = [CkLive (KGen 1)] /\
   pending (st_of' (regenerate s 0)) = [(25000000000%Z, KGen 0)].
-Proof. split; [apply ok_b; reflexivity|]. by_compute. Qed.
+Proof. split; [apply ok_b; vm_compute; reflexivity|]. by_compute. Qed.
 
 Example login_ex :
   let s := sE 30000000000 10 true in
@@ -190,10 +191,10 @@ Example start_chain_ex :
   option_map o_id (hget (st_of (start s q)) 5) = Some (KGen 2) /\
   option_map (fun ob => r_ref (o_rec ob)) (hget (st_of (start s q)) 5) = Some None.
 Proof.
-  split; [apply ok_b; reflexivity|]. split; [apply ref_wf_b; reflexivity|].
+  split; [apply ok_b; vm_compute; reflexivity|]. split; [apply ref_wf_b; vm_compute; reflexivity|].
   split.
   - eexists. split; [vm_compute; reflexivity|]. split.
-    + cbn. split; [reflexivity|]. eexists. split; [vm_compute; reflexivity|].
+    + cbn [chain_rec]. split; [reflexivity|]. eexists. split; [vm_compute; reflexivity|].
       split; [reflexivity|]. eexists. split; [vm_compute; reflexivity | reflexivity].
     + by_compute.
   - by_compute.
@@ -216,9 +217,9 @@ Example start_backstop_ex :
   (exists r, L s (KGen 0) = Some r /\ r_ref r = Some (KGen 1) /\ valid_for (conf s) r (now s) q = true /\
              (sat_add (c_idexpiry (conf s)) (c_grace (conf s)) <= since (r_created r) (now s))%Z) /\
   snd (fst (start s q)) = Err EExpiredID /\ L (st_of (start s q)) (KGen 0) = None /\
-  snd (fst (start (tick s (-1)) q)) = Ok (Some 1%nat).
+  snd (fst (start (tick s (-1)) q)) = Ok (Some 3%nat).
 Proof.
-  split; [apply ok_b; reflexivity|]. split; [eexists; split; [vm_compute; reflexivity | by_compute]|].
+  split; [apply ok_b; vm_compute; reflexivity|]. split; [eexists; split; [vm_compute; reflexivity | by_compute]|].
   by_compute.
 Qed.
 
@@ -234,23 +235,86 @@ Proof. eexists. split; [vm_compute; reflexivity|]. by_compute. Qed.
    placeholder's own age against SessionExpiry *)
 Example short_expiry_witness :
   let c := mkCfg 2000000000 30000000000 5000000000 max64 10 1 true false in
+  let qn := mkReq (CKey (KGen 1)) false (V4 1 2 3 4 5) 7 in
   let s0 := tick (st_of (start (init_st c) (reqE CNone))) 1000000000 in
-  let s := tick (st_of' (regenerate s0 0)) 3000000000 in
+  let s1 := tick (st_of' (regenerate s0 0)) 1500000000 in
+  let s := tick (st_of (start s1 qn)) 1000000000 in
   let q := mkReq (CKey (KGen 0)) false (V4 1 2 3 4 5) 7 in
   (plan s = [] /\ cache_ok s /\ nodup_ok s /\ fresh_ok s) /\
-  pending s = [(6000000000%Z, KGen 0)] /\ now s = 4000000000%Z /\
+  pending s = [(6000000000%Z, KGen 0)] /\ now s = 3500000000%Z /\
   option_map r_ref (L s (KGen 0)) = Some (Some (KGen 1)) /\
+  option_map r_access (L s (KGen 1)) = Some 2500000000%Z /\
   start s q = (st_of (start s q), Ok None, [CkDelete]) /\
-  snd (fst (start s (mkReq (CKey (KGen 1)) false (V4 1 2 3 4 5) 7))) = Ok (Some 0%nat).
-Proof. split; [apply ok_b; reflexivity|]. by_compute. Qed.
+  snd (fst (start s qn)) = Ok (Some 0%nat).
+Proof. split; [apply ok_b; vm_compute; reflexivity|]. by_compute. Qed.
 
-(* C18: an anomalous request destroys the session and gets a new one: a
+(* C18: a request on an idle-expired session destroys it and gets a new one: a
    deletion cookie followed by the live cookie of the new session *)
 Example cookies_ex :
-  let s := sE 30000000000 10 false in
-  let q := mkReq (CKey (KGen 0)) true (V4 9 9 9 9 5) 7 in
+  let s := tick (sE 30000000000 10 false) 1000000000000000 in
+  let q := reqE (CKey (KGen 0)) in
   (plan s = [] /\ cache_ok s /\ nodup_ok s /\ fresh_ok s) /\ q_cookie q <> CKey (KGen (supply s)) /\
   snd (start s q) = [CkDelete; CkLive (KGen 1)] /\
   L (st_of (start s q)) (KGen 0) = None /\
   option_map r_ref (L (st_of (start s q)) (KGen 1)) = Some None.
-Proof. split; [apply ok_b; reflexivity|]. by_compute. Qed.
+Proof. split; [apply ok_b; vm_compute; reflexivity|]. by_compute. Qed.
+
+(* D10 as a statement: inside the grace period, with the live session valid
+   and recently used, a replaced ID can be refused and its record destroyed,
+   because Start judges the placeholder's own lastAccess against SessionExpiry
+   (possible exactly when SessionExpiry < SessionIDGracePeriod). *)
+Lemma short_expiry_refuted :
+  exists s q k r tgt d rt,
+    (plan s = [] /\ cache_ok s /\ nodup_ok s /\ fresh_ok s) /\
+    q_cookie q = CKey k /\ L s k = Some r /\ r_ref r = Some tgt /\
+    In (d, k) (pending s) /\ (now s < d)%Z /\
+    L s tgt = Some rt /\ r_ref rt = None /\
+    valid_for (conf s) rt (now s) (mkReq (CKey tgt) false (q_addr q) (q_ua q)) = true /\
+    exists s', start s q = (s', Ok None, [CkDelete]) /\ L s' k = None.
+Proof.
+  set (c := mkCfg 2000000000 30000000000 5000000000 max64 10 1 true false).
+  set (qn := mkReq (CKey (KGen 1)) false (V4 1 2 3 4 5) 7).
+  set (s0 := tick (st_of (start (init_st c) (reqE CNone))) 1000000000).
+  set (s1 := tick (st_of' (regenerate s0 0)) 1500000000).
+  set (s := tick (st_of (start s1 qn)) 1000000000).
+  exists s, (mkReq (CKey (KGen 0)) false (V4 1 2 3 4 5) 7), (KGen 0).
+  eexists _, (KGen 1), 6000000000%Z, _.
+  split; [apply ok_b; vm_compute; reflexivity|].
+  split; [reflexivity|]. split; [vm_compute; reflexivity|]. split; [reflexivity|].
+  split; [vm_compute; left; reflexivity|]. split; [vm_compute; reflexivity|].
+  split; [vm_compute; reflexivity|]. split; [reflexivity|]. split; [vm_compute; reflexivity|].
+  eexists. split; vm_compute; reflexivity.
+Qed.
+
+(* why C04_seq_keep assumes a non-negative grace period: with a negative one
+   the backstop age lies below SessionIDExpiry, and a current ID younger than
+   SessionIDExpiry is refused as expired and deleted *)
+Example negative_grace_witness :
+  let c := mkCfg 1000000000000000 30000000000 (-15000000000) max64 10 1 true false in
+  let s := tick (st_of (start (init_st c) (reqE CNone))) 20000000000 in
+  (plan s = [] /\ cache_ok s /\ nodup_ok s /\ fresh_ok s) /\
+  (since 0 (now s) < c_idexpiry (conf s))%Z /\
+  snd (fst (start s (reqE (CKey (KGen 0))))) = Err EExpiredID /\
+  L (st_of (start s (reqE (CKey (KGen 0))))) (KGen 0) = None.
+Proof. split; [apply ok_b; vm_compute; reflexivity|]. by_compute. Qed.
+
+(* C05_grace_live: 3 s after the ID change (grace 5 s) the replaced ID still
+   returns the live session and moves the cookie; at 5 s it is gone *)
+Example grace_live_ex :
+  let s := sE 30000000000 10 false in
+  let q := mkReq (CKey (KGen 0)) false (V4 1 2 3 4 5) 7 in
+  let d := 3000000000%Z in
+  (plan s = [] /\ cache_ok s /\ nodup_ok s /\ fresh_ok s) /\ ref_wf s /\ pending s = [] /\
+  (forall r', r' = ref_rec (recE 0) (now s) (KGen 1) \/ r' = codec (conf s) (ref_rec (recE 0) (now s) (KGen 1)) ->
+     valid_for (conf s) r' (now s + d) q = true /\
+     (since (r_created r') (now s + d) < sat_add (c_idexpiry (conf s)) (c_grace (conf s)))%Z) /\
+  (let s2 := fire_due (set_now (st_of' (regenerate s 0)) (now s + d)) in
+   snd (start s2 q) = [CkLive (KGen 1)] /\ snd (fst (start s2 q)) = Ok (Some 0%nat)) /\
+  (let s2 := fire_due (set_now (st_of' (regenerate s 0)) (now s + 5000000000)) in
+   start s2 q = (st_of (start s2 q), Ok None, [CkDelete])).
+Proof.
+  split; [apply ok_b; vm_compute; reflexivity|]. split; [apply ref_wf_b; vm_compute; reflexivity|].
+  split; [reflexivity|]. split.
+  - apply grace_live_checks_gob; try reflexivity; by_compute.
+  - by_compute.
+Qed.
